@@ -94,7 +94,8 @@ MUTANTS = {
 
 
 def make_copy(name):
-    dst = f'/dev/shm/dsim-mutant-{name}'
+    from . import kernel as K_
+    dst = f'{K_.scratch_root()}/dsim-mutant-{name}'
     shutil.rmtree(dst, ignore_errors=True)
     os.makedirs(dst)
     shutil.copytree(os.path.join(REPO, 'src'), os.path.join(dst, 'src'), ignore=shutil.ignore_patterns('*.egg-info', '__pycache__', '*.log'))
